@@ -194,7 +194,9 @@ def check_map(ctx, Canon, aliases, preferred, rng, steps):
         ctx.count('sibling_alias_tables_edited')
     except Exception:
         pass
-    m = construct(ctx, A, {chosen[v]: init_vals[v] for v in VARS} if not has_cycle else {}, case)
+    strict = rng.random() < 0.3          # strict objects refuse *new* names; an alias is not a new name
+    case['strict'] = strict
+    m = construct(ctx, A, dict({chosen[v]: init_vals[v] for v in VARS} if not has_cycle else {}, strict=strict), case)
     if m == 'budget':
         return
     # ambiguous preferences must be rejected (at construction or at export)
@@ -212,7 +214,7 @@ def check_map(ctx, Canon, aliases, preferred, rng, steps):
     if has_cycle:
         ctx.count('cyclic_maps_terminated')
         return
-    twin = Canon(range(2000, 2006), **init_vals)
+    twin = Canon(range(2000, 2006), strict=strict, **init_vals)
     span = list(twin.span)
     hist = [('init', dict(chosen))]
     case['history'] = hist
@@ -252,7 +254,7 @@ def check_map(ctx, Canon, aliases, preferred, rng, steps):
         pair = rng.sample(spellings[v], 2)
         others = [p for p in preferred if resolve(aliases, p) != v and p != v]
         m2 = m.copy()
-        m2.preferred_names = others + pair if rng.random() < 0.5 else pair + others
+        m2.preferred_names[:] = others + pair if rng.random() < 0.5 else pair + others      # edited in place (works on strict objects too)
         r = do(lambda: m2.to_dataframe(use_aliases=True))
         ctx.count('runtime_preferences_checked')
         if not (r[0] == 'exc' and r[1] == 'ValueError'):
